@@ -45,6 +45,10 @@ class ExprMixin:
                 sch = self.env.object_models.get(id(v))
                 if sch is not None:
                     return self.global_object(sch)
+            for h in self.env.object_hooks:
+                sch = h(v)
+                if sch is not None:
+                    return self.global_object(sch)
             return v
         if hasattr(_bi, name):
             return getattr(_bi, name)
@@ -163,9 +167,9 @@ class ExprMixin:
 
     def ex_IfExp(self, node, fr):
         c = self.truth(self.eval(node.test, fr))
-        if smt.is_true(c):
+        if smt.is_true(c) or self.known(c):
             return self.eval(node.body, fr)
-        if smt.is_false(c):
+        if smt.is_false(c) or self.known(smt.Not(c)):
             return self.eval(node.orelse, fr)
         try:
             self.pure += 1
